@@ -380,9 +380,17 @@ def gen(rng, tier):
 # ----------------------------------------------------------------------------- cases
 
 def collide(e):
-    """undefined function whose name is an entry of the dialect table (finding C19-N1)."""
+    """undefined function whose name is an entry of the dialect table (finding F30)."""
     return any(isinstance(a, AppliedUndef) and str(a.func) in TABLE for a in sympy.preorder_traversal(e)) \
         if isinstance(e, sympy.Basic) else False
+
+def show(e):
+    for f in (sympy.srepr, str):
+        try:
+            return f(e)
+        except Exception:
+            pass
+    return "<unprintable sympy object>"
 
 def run_convert(inp):
     try:
@@ -410,7 +418,7 @@ def run_convert(inp):
     lost = False
     for prod, n in stats:
         if py_classify(prod)[1] and not py_classify(n)[1]:
-            lost = True      # sympy simplified the unsupported construct away while multiplying by -1 (finding C19-N2)
+            lost = True      # sympy simplified the unsupported construct away while multiplying by -1 (finding F31)
         if py_classify(prod)[0] and not py_classify(n)[0]:
             lost = True      # .. or produced one: 1/exp(-1) re-evaluates to E (same finding)
         if py_classify(prod)[0]:
@@ -421,20 +429,22 @@ def run_convert(inp):
     if uns or collide(e):      # property level: an undefined function is outside the grammar whatever its name
         kind = "convert-unsupported"
         if not refused:
-            ok, msg = False, f"{sympy.srepr(e)} contains an unsupported construct but was translated to {back}"
+            ok, msg = False, f"{show(e)} contains an unsupported construct but was translated to {back}"
     elif sup:
         v1 = well_defined(e, env)
         if v1 is None:
             kind = "convert-degenerate-value"      # zoo/nan/ill-conditioned original: no claim about the value
         elif refused:
-            ok, msg = False, f"{sympy.srepr(e)} is inside the grammar but was refused ({out if st != 'ok' else back})"
+            ok, msg = False, f"{show(e)} is inside the grammar but was refused ({out if st != 'ok' else back})"
         else:
             s2, v2 = outcome(numeric, back, env, timeout=10)
-            if s2 != "ok" or not close(v1, v2):
-                ok, msg = False, f"{sympy.srepr(e)} -> {out} -> {back}: value {v1} became {v2}"
+            if s2 != "ok" and "ArithmeticError" in str(v2):
+                kind = "convert-degenerate-value"  # the re-translated expression sits on a branch cut
+            elif s2 != "ok" or not close(v1, v2):
+                ok, msg = False, f"{show(e)} -> {out} -> {back}: value {v1} became {v2}"
     else:
         kind = "convert-other-number"
-    sig = "C19-N1" if collide(e) else ("C19-N2" if lost else None)
+    sig = "F30" if collide(e) else ("F31" if lost else None)
     return dict(chk=chk, oracle_ok=ok, oracle_msg=msg, kind=kind, sig=sig,
                 nontrivial=isinstance(e, sympy.Basic) and len(getattr(e, "args", ())) > 0)
 
@@ -492,6 +502,12 @@ def run_case(inp):
         for a, b in zip(s_nat, s_nat[1:]):
             if skel(a) == skel(b) and nums(a) > nums(b):
                 ok, msg = False, f"sorted by natural_key puts {a} before {b}"
+        # reversed keys: names of the form <digit-free text><number> are ordered by number first, then text
+        tail = lambda n: re.fullmatch(r"([^0-9]*)([0-9]+)", n)
+        for a, b in zip(s_rev, s_rev[1:]):
+            ma, mb = tail(a), tail(b)
+            if ma and mb and (int(ma.group(2)), ma.group(1)) > (int(mb.group(2)), mb.group(1)):
+                ok, msg = False, f"sorted by natural_key_revlex puts {a} before {b}"
         return dict(chk=f"natkey_eqb {clist(names, cstring)} {clist(keys, ck)} {clist(s_nat, cstring)} {clist(s_rev, cstring)}",
                     oracle_ok=ok, oracle_msg=msg, kind=kind, nontrivial=len(set(names)) >= 2)
     raise ValueError(kind)
@@ -512,4 +528,4 @@ def w_n2():
     return st == "ok" or st2 != "ok", (f"Add(x, Mul(-1, 0, pi)) (unevaluated) contains pi but is translated to {out!r}; "
                                        f"x - 1/exp(-1) (unevaluated, inside the grammar) gives {out2}: expr*(-1) re-evaluates the product")
 
-H.main(gen, run_case, {"C19-N1": w_n1, "C19-N2": w_n2})
+H.main(gen, run_case, {"F30": w_n1, "F31": w_n2})
